@@ -238,3 +238,40 @@ def proposal_application(ctx, repo, rule):
         ctx.check(ok, rule, fi, a if a is not None else fi.node, "%s = bound (absolute) or x0 * bound (relative)" % nm, "`%s` is not `self.%s if self.limit_type == 'abs' else x0 * self.%s`: the bounds the result must respect are not the ones the caller gave" % (norm(a)[:80] if a is not None else nm, attr, attr), stmt_text="hard-bounds:%s" % nm)
     rets = [r for r in own_nodes(fi.node) if isinstance(r, ast.Return)]
     ctx.check(len(rets) == 1 and ast.unparse(rets[0].value) == "(xmin, xmax)", rule, fi, rets[0] if rets else fi.node, "returns (xmin, xmax)", "Adjustable.get_hard_bounds does not return (xmin, xmax)")
+
+
+def calibration_objective(ctx, repo, rule):
+    ctx.rule(rule, "calibration evaluates what it proposes: _calculate_objective first writes the proposed y-factors into the (private) parameter set, runs it, maps a BadInitialization to +inf, and returns the sum (from zero, added) over the requested outputs of weight * sum(fit score of data vs model at the data years); _update_parset writes factor i to the meta factor for population 'all', to the population's factor otherwise, and to the transfer's factor for '<transfer>_from_<pop>' names")
+    fi = repo.func("calibration", "_calculate_objective")
+    flowalg.accumulator_rule(ctx, repo, rule, [("calibration", "_calculate_objective")], 2, "the calibration objective")
+    cfg = K.cfg(repo, fi)
+    upd = [s for s in own_nodes(fi.node) if isinstance(s, ast.Expr) and ast.unparse(s.value) == "_update_parset(%s, %s, %s)" % (fi.params[3], fi.params[0], fi.params[1])]
+    run = [s for s in own_nodes(fi.node) if isinstance(s, ast.Assign) and isinstance(s.value, ast.Call) and ast.unparse(s.value.func).endswith(".run_sim") and astq.kwarg(s.value, "parset") is not None and ast.unparse(astq.kwarg(s.value, "parset")) == fi.params[3]]
+    ok = len(upd) == 1 and len(run) == 1 and cfg.dominates(upd[0], run[0]) and not guards_of(upd[0])
+    ctx.check(ok, rule, fi, run[0] if run else fi.node, "proposal written into the parameter set before the run", "_calculate_objective does not apply the proposed y-factors to the parameter set it then simulates: the optimiser is told the objective of other parameters than those it proposed", stmt_text="calib-apply-then-run")
+    hs = [h for h in own_nodes(fi.node) if isinstance(h, ast.ExceptHandler) and h.type is not None and "BadInitialization" in ast.unparse(h.type)]
+    ok = len(hs) == 1 and any(isinstance(s, ast.Return) and ast.unparse(s.value) == "np.inf" for s in hs[0].body)
+    ctx.check(ok, rule, fi, hs[0] if hs else fi.node, "an impossible initialisation scores +inf", "_calculate_objective does not map BadInitialization to an infinite objective", stmt_text="calib-badinit")
+    add = [s for s in own_nodes(fi.node) if isinstance(s, ast.AugAssign) and astq.is_name(s.target, "objective")]
+    ok = len(add) == 1 and _same(add[0].value, "weight * sum(_calculate_fitscore(y[idx], y2[idx], metric))")
+    ctx.check(ok, rule, fi, add[0] if add else fi.node, "objective += weight * sum(fit score)", "the calibration objective does not add weight * sum(_calculate_fitscore(data, model, metric)) per requested output", stmt_text="calib-term")
+    rets = [r for r in own_nodes(fi.node) if isinstance(r, ast.Return) and not any(isinstance(p_, ast.ExceptHandler) for p_ in _parents(r, fi.node))]
+    ctx.check(len(rets) == 1 and ast.unparse(rets[0].value) == "objective", rule, fi, rets[0] if rets else fi.node, "the accumulated objective is returned", "_calculate_objective does not return the accumulated objective", stmt_text="calib-return")
+    up = repo.func("calibration", "_update_parset")
+    ps, yf, adj = up.params[:3]
+    lp = [l for l in own_nodes(up.node) if isinstance(l, ast.For) and ast.unparse(l.iter) == "enumerate(%s)" % adj and isinstance(l.target, ast.Tuple)]
+    ctx.require(len(lp) == 1, "%s: loop over enumerate(pars_to_adjust) not found in _update_parset" % rule)
+    i = ast.unparse(lp[0].target.elts[0])
+    stores = [s for s in ast.walk(lp[0]) if isinstance(s, ast.Assign) and ast.unparse(s.value) == "%s[%s]" % (yf, i)]
+    kinds = {}
+    for s in stores:
+        t = ast.unparse(s.targets[0])
+        g = B.cond(guards_of(s, stop=lp[0]))
+        if t.endswith(".meta_y_factor"):
+            kinds["meta"] = B.equivalent(g, B.parse_cond("par_name in %s.pars and pop_name.lower() == 'all'" % ps))
+        elif t == "%s.pars[par_name].y_factor[pop_name]" % ps:
+            kinds["pop"] = B.equivalent(g, B.parse_cond("par_name in %s.pars and not (pop_name.lower() == 'all')" % ps))
+        elif t.endswith(".y_factor[pop_name]"):
+            kinds["transfer"] = B.equivalent(g, B.parse_cond("not (par_name in %s.pars)" % ps))
+    ok = kinds == {"meta": True, "pop": True, "transfer": True} and len(stores) == 3
+    ctx.check(ok, rule, up, lp[0], "factor i goes to the meta / population / transfer factor under the right test", "_update_parset does not write y_factors[i] to exactly one of {meta factor when pop is 'all', the population's factor, the transfer's factor} under the corresponding test (%s): a calibrated value is applied to the wrong quantity or not at all" % kinds, stmt_text="calib-update")
